@@ -166,6 +166,7 @@ func (this *Hnsw) Remove(id uuid.UUID) error {
 	if err != nil {
 		return err
 	}
+	verifPause("remove:tombstoned")
 
 	currEntrypoint := atomic.LoadPointer(&this.entrypoint)
 	if (*hnswVertex)(currEntrypoint) == vertex {
